@@ -41,12 +41,43 @@ type vC05Hook struct {
 	crashAt int // 0 = never
 	kill    bool
 	seq     []string
+	// torn-write replays: the log file the last append:log-written point followed, and its size
+	// before and after that write
+	dir                string
+	sizes              map[string]int64
+	grown              string
+	grownFrom, grownTo int64
+}
+
+func (h *vC05Hook) logSizes() map[string]int64 {
+	m := map[string]int64{}
+	des, _ := os.ReadDir(h.dir)
+	for _, de := range des {
+		if strings.Contains(de.Name(), ".log") {
+			if fi, err := de.Info(); err == nil {
+				m[de.Name()] = fi.Size()
+			}
+		}
+	}
+	return m
 }
 
 func (h *vC05Hook) install() {
 	CrashHook = func(p string) {
 		h.hits++
 		h.seq = append(h.seq, p)
+		if h.dir != "" {
+			now := h.logSizes()
+			if p == "append:log-written" {
+				h.grown = ""
+				for name, sz := range now {
+					if sz > h.sizes[name] {
+						h.grown, h.grownFrom, h.grownTo = name, h.sizes[name], sz
+					}
+				}
+			}
+			h.sizes = now
+		}
 		if h.crashAt > 0 && h.hits == h.crashAt {
 			if h.kill {
 				syscall.Kill(os.Getpid(), syscall.SIGKILL)
@@ -189,6 +220,107 @@ type vC05Exec struct {
 	ptsOp               int // index of the operation the crash points belong to (-1: the first new one)
 	hits0               int // crash-point hits before the current operation
 	intent              vM  // the operation about to run, for the crash record
+	tear                uint64 // non-zero: the write before the crash point is torn (seed of the choice)
+	tornWhat            vM
+}
+
+// applyTear turns the files of a crash right after a write into the files of a crash inside that
+// write: after append:log-written the log file keeps only a byte prefix of what the last write(2)
+// added (a process killed inside a large write leaves a short write; at a frame boundary this is a
+// batch of which only the first frames arrived); after append:index-written the index keeps only a
+// byte prefix of the entries the last store through the mapping added (memmove stores ascending).
+func (e *vC05Exec) applyTear(point string) {
+	h := e.hook
+	if h.grown == "" || h.grownTo <= h.grownFrom {
+		return
+	}
+	r := vNewRand(e.tear)
+	logPath := filepath.Join(e.c.dir, h.grown)
+	b, err := os.ReadFile(logPath)
+	if err != nil || int64(len(b)) != h.grownTo {
+		return
+	}
+	// frame boundaries inside the write
+	var bounds []int64
+	pos := h.grownFrom
+	for pos+msgSetHeaderLen <= h.grownTo {
+		sz := int64(messageSet(b[pos : pos+msgSetHeaderLen]).Size())
+		pos += msgSetHeaderLen + sz
+		if pos < h.grownTo {
+			bounds = append(bounds, pos)
+		}
+	}
+	nframes := int64(len(bounds) + 1)
+	switch point {
+	case "append:log-written":
+		delta := h.grownTo - h.grownFrom
+		if delta < 2 {
+			return
+		}
+		cut := h.grownFrom + 1 + int64(r.intn(int(delta-1)))
+		if len(bounds) > 0 && r.intn(3) == 0 {
+			cut = bounds[r.intn(len(bounds))]
+		}
+		if os.Truncate(logPath, cut) == nil {
+			whole, last := 0, h.grownFrom
+			for _, bd := range bounds {
+				if bd <= cut {
+					whole++
+					last = bd
+				}
+			}
+			e.tornWhat = vM{"file": h.grown, "from": h.grownFrom, "to": h.grownTo, "kept": cut - h.grownFrom, "k": whole, "z": cut - last}
+			e.c.stats["torn/log"]++
+		}
+	case "append:index-written":
+		idxPath := filepath.Join(e.c.dir, strings.Replace(h.grown, ".log", ".index", 1))
+		ib, err := os.ReadFile(idxPath)
+		if err != nil {
+			return
+		}
+		end := int64(0)
+		for end+entryWidth <= int64(len(ib)) {
+			var rel relEntry
+			binary.Read(bytes.NewReader(ib[end:end+entryWidth]), binary.BigEndian, &rel)
+			if rel.Position == 0 && rel.Timestamp == 0 && rel.Size == 0 {
+				break
+			}
+			end += entryWidth
+		}
+		start := end - nframes*entryWidth
+		if start < 0 {
+			return
+		}
+		keep := 1 + int64(r.intn(int(nframes*entryWidth-1)))
+		f, err := os.OpenFile(idxPath, os.O_WRONLY, 0)
+		if err != nil {
+			return
+		}
+		torn := append([]byte{}, ib[start:end]...)
+		for i := keep; i < int64(len(torn)); i++ {
+			torn[i] = 0
+		}
+		if bytes.Equal(torn, ib[start:end]) {
+			f.Close()
+			return // the bytes that did not arrive are zero anyway: this is the completed write
+		}
+		f.WriteAt(torn, start)
+		f.Close()
+		// what the code will see of the entry that arrived in part
+		whole := keep / entryWidth
+		z := int64(-1)
+		if keep%entryWidth != 0 && bytes.Equal(torn[whole*entryWidth:(whole+1)*entryWidth], ib[start+whole*entryWidth:start+(whole+1)*entryWidth]) {
+			whole++ // the missing bytes of this entry are zero: it arrived whole
+		} else if keep%entryWidth != 0 {
+			var rel relEntry
+			binary.Read(bytes.NewReader(torn[whole*entryWidth:(whole+1)*entryWidth]), binary.BigEndian, &rel)
+			if !(rel.Position == 0 && rel.Timestamp == 0 && rel.Size == 0) {
+				z = int64(rel.Position) + int64(rel.Size)
+			}
+		}
+		e.tornWhat = vM{"file": filepath.Base(idxPath), "from": start, "to": end, "kept": keep, "k": whole, "z": z, "visible": z >= 0}
+		e.c.stats["torn/index"]++
+	}
 }
 
 func vC05NewExec(out *vOut, p vC05Prog, dirTag string, stats map[string]int, hook *vC05Hook) *vC05Exec {
@@ -521,6 +653,13 @@ func (e *vC05Exec) recover(point string, step int, before, after []vRefRec, hwBe
 	for _, lr := range c.readers {
 		lr.dead = true
 	}
+	if e.tear != 0 {
+		e.applyTear(point)
+		if e.tornWhat != nil {
+			point += "~torn"
+			c.tag += "~torn"
+		}
+	}
 	obs := &vC05Obs{point: point, step: step, kind: e.cur, disk: vC05Disk(c.dir)}
 	c.stats["crash/"+e.cur+"/"+point]++
 	if c.l == nil { // crashed inside the very first commitlog.New
@@ -665,7 +804,7 @@ func (e *vC05Exec) recover(point string, step int, before, after []vRefRec, hwBe
 	}
 	c.ref = got
 	c.ops = append(c.ops, vM{"op": "crash", "intent": e.intent, "k": e.lastHit - e.hits0, "point": point, "disk": obs.disk,
-		"offs": obs.offs, "newest": obs.newest, "oldest": obs.oldest, "hw": obs.hw, "cache": obs.cache})
+		"offs": obs.offs, "newest": obs.newest, "oldest": obs.oldest, "hw": obs.hw, "cache": obs.cache, "torn": e.tornWhat})
 	e.hwInsideLog()
 	return obs
 }
@@ -727,6 +866,7 @@ func TestVerifC05(t *testing.T) {
 	nprog := vEnvInt("VERIF_N", 40)
 	maxReplays := vEnvInt("VERIF_C05_REPLAYS", 60) // per program; more hits than this are sampled
 	childEvery := vEnvInt("VERIF_C05_CHILD_EVERY", 25)
+	tearOn := vEnvInt("VERIF_C05_TEAR", 1) != 0
 	r := vNewRand(vSeed())
 	var progs []vC05Prog
 	if rl := vReplayLines(); rl != nil {
@@ -797,6 +937,26 @@ func TestVerifC05(t *testing.T) {
 			}
 			e.done()
 			out.flush()
+			// the same crash, inside the write that precedes the point
+			if pt := hook.seq[n-1]; tearOn && (pt == "append:log-written" || pt == "append:index-written") {
+				h3 := &vC05Hook{}
+				h3.install()
+				e := vC05NewExec(out, p, "", stats, h3)
+				e.tear = (p.seed*1000003 + uint64(n)*7919) | 1 // a function of the program and the hit: replays tear the same way
+				h3.dir, h3.sizes = e.c.dir, map[string]int64{}
+				obs := e.runCrash(clean, n, nil)
+				if obs != nil && e.tornWhat != nil {
+					replays++
+					o := vC05ObsJSON(p, n, obs, nil)
+					o["torn"] = e.tornWhat
+					out.emit(o)
+					if !e.c.viol {
+						out.emit(e.caseJSON(obs.step == -1))
+					}
+				}
+				e.done()
+				out.flush()
+			}
 		}
 	}
 	CrashHook = nil
